@@ -113,6 +113,38 @@ func (x *c16Ctx) named(t types.Type) *types.Named {
 	return n
 }
 
+// label: stable role name of a configuration field for obligation keys: the
+// exported setter that writes it (plus the field's type when the setter
+// writes several fields), never the unexported field name.
+func (x *c16Ctx) label(field string) string {
+	var setters []string
+	for m, fs := range x.setters {
+		if fs[field] {
+			setters = append(setters, m)
+		}
+	}
+	sort.Strings(setters)
+	if len(setters) == 0 {
+		return field
+	}
+	m := setters[0]
+	lab := strings.TrimPrefix(m, "Set")
+	if len(x.setters[m]) > 1 {
+		if st := c15StructOf(x.basic); st != nil {
+			for i := 0; i < st.NumFields(); i++ {
+				if st.Field(i).Name() == field {
+					t := st.Field(i).Type().String()
+					if j := strings.LastIndex(t, "."); j >= 0 {
+						t = t[j+1:]
+					}
+					lab += "." + t
+				}
+			}
+		}
+	}
+	return lab
+}
+
 // written: configuration fields of dst written by calling method `name` on it.
 func (x *c16Ctx) writtenByMethod(dst *types.Named, name string) map[string]bool {
 	fn := x.c.P.Func(c16IO, dst.Obj().Name(), name)
@@ -165,6 +197,7 @@ func (x *c16Ctx) optionWrites(ctor *ssa.Function, dst *types.Named) (map[string]
 
 func runC16(c *an.Ctx) {
 	p := c.P
+	c16ResolveIO(p)
 	basic, hamt, dyn := p.Named(c16IO, "BasicDirectory"), p.Named(c16IO, "HAMTDirectory"), p.Named(c16IO, "DynamicDirectory")
 	iface := p.Named(c16IO, "Directory")
 	fDir := p.Field(c16IO, "DynamicDirectory", "Directory")
@@ -395,7 +428,7 @@ func (x *c16Ctx) site(f *ssa.Function, st *ssa.Store) {
 	}
 	gather(f, conv, newDir, st, 0)
 	for _, k := range x.config {
-		c.Check(written[k], "O1", "R-SIB", name, tag+":propagates-"+k, st.Pos(),
+		c.Check(written[k], "O1", "R-SIB", name, tag+":propagates-"+x.label(k), st.Pos(),
 			"configuration field "+k+" is handed to the new directory",
 			fmt.Sprintf("conversion %s in %s installs a new directory without propagating the configuration field %q (no option or setter writing it is applied to the new directory): the setting silently falls back to its default after the conversion, so later sharding decisions and the root CID depend on the edit history", tag, name, k))
 	}
@@ -459,14 +492,10 @@ func (x *c16Ctx) comparators(fns []*ssa.Function) {
 		}
 		return false
 	}
-	hasField := func(v ssa.Value, names ...string) bool {
+	hasMaxLinks := func(v ssa.Value) bool {
 		for _, l := range an.Deps(v, nil) {
-			if fl, _ := an.LoadedField(l); fl != nil {
-				for _, n := range names {
-					if fl.Name() == n && fl.Pkg() != nil && fl.Pkg().Path() == an.Mod+"/"+c16IO {
-						return true
-					}
-				}
+			if fl, _ := an.LoadedField(l); fl != nil && (fl == c16IOR.bMaxLinks || fl == c16IOR.hMaxLinks) {
+				return true
 			}
 		}
 		return false
@@ -499,7 +528,7 @@ func (x *c16Ctx) comparators(fns []*ssa.Function) {
 					fmt.Sprintf("size is compared with getEffectiveShardingSize() as 'size %s threshold' instead of the documented strict 'size > threshold': a directory exactly at the threshold is sharded by one decision and not by the other (upgrade and downgrade disagree => CID depends on history)", op))
 				return
 			}
-			lm, rm := hasField(l, "maxLinks"), hasField(r, "maxLinks")
+			lm, rm := hasMaxLinks(l), hasMaxLinks(r)
 			if lm != rm {
 				if lm {
 					op, l, r = an.SwapCmp(op), r, l
@@ -602,7 +631,7 @@ func (x *c16Ctx) feedsSizeChange(call ssa.CallInstruction) bool {
 		if b, ok := u.(*ssa.BinOp); ok {
 			for _, u2 := range an.Uses(b) {
 				if st, ok := u2.(*ssa.Store); ok {
-					if fl, _ := an.FieldOf(st.Addr); fl != nil && fl.Name() == "sizeChange" {
+					if fl, _ := an.FieldOf(st.Addr); fl != nil && fl == c16IOR.hSizeChange {
 						return true
 					}
 				}
@@ -631,7 +660,7 @@ func (x *c16Ctx) modeGuards(fns []*ssa.Function) {
 			switch c16SizeKind(call) {
 			case "block", "block-data":
 				nB++
-				c.Check(x.guardedIn(fns, f, call, blockOnly, 0), "O3", "R-SIB", an.FuncName(f), an.Callee(call).Name+"<=mode-block", call.Pos(),
+				c.Check(x.guardedIn(fns, f, call, blockOnly, 0), "O3", "R-SIB", an.FuncName(f), c16CallName(call)+"<=mode-block", call.Pos(),
 					"exact dag-pb size function used only in SizeEstimationBlock mode",
 					"the exact block-size function "+an.Callee(call).Name+" is evaluated on a path where the estimation mode is not known to be SizeEstimationBlock: sizes in different units are mixed in one estimate, so the basic/HAMT decision differs from the one a fresh build takes")
 			case "links":
@@ -803,10 +832,15 @@ func (x *c16Ctx) prefixTaint(fns []*ssa.Function) {
 }
 
 func c16CallName(call ssa.CallInstruction) string {
-	if k := c16SizeKind(call); k == "links" {
+	switch c16SizeKind(call) {
+	case "links":
 		return "linksize.LinkSizeFunction"
+	case "block":
+		return "link-size-fn"
+	case "block-data":
+		return "data-size-fn"
 	}
-	return an.Callee(call).Name
+	return c15KeyName(call, "size-helper")
 }
 
 // nameParamFeedsSize: string parameter i of g reaches the name argument of a
@@ -836,8 +870,8 @@ func (x *c16Ctx) nameParamFeedsSize(g *ssa.Function, i int) bool {
 func (x *c16Ctx) gate(fns []*ssa.Function) {
 	c := x.c
 	p := c.P
-	fSC := p.Field(c16IO, "HAMTDirectory", "sizeChange")
-	fEst := p.Field(c16IO, "BasicDirectory", "estimatedSize")
+	fSC := c16IOR.hSizeChange
+	fEst := c16IOR.bEst
 	below := p.Func(c16IO, "HAMTDirectory", "sizeBelowThreshold")
 	if below == nil {
 		// by role: the HAMTDirectory method that enumerates the links to measure the directory
@@ -889,7 +923,8 @@ func (x *c16Ctx) gate(fns []*ssa.Function) {
 		return
 	}
 	for _, g := range gates {
-		name := an.FuncName(g.f)
+		// role name, not the (unexported) function name: these keys are listed as known findings
+		name := "ipld/unixfs/io.HAMTDirectory.switch-to-basic-gate"
 		// (a) conversions initialise the tracker from the basic directory's estimate
 		nConv, okInit := 0, true
 		for _, f := range fns {
@@ -1171,7 +1206,7 @@ func c16IsSizeHelper(g *ssa.Function) bool {
 
 func (x *c16Ctx) terms(fns []*ssa.Function, minTerms, minSigned int) {
 	c := x.c
-	fSC := c.P.Field(c16IO, "HAMTDirectory", "sizeChange")
+	fSC := c16IOR.hSizeChange
 	isThr := func(v ssa.Value) bool {
 		for _, l := range an.Deps(v, &an.DepOpts{Stop: func(w ssa.Value) bool {
 			call, ok := w.(*ssa.Call)
@@ -1277,6 +1312,20 @@ func (x *c16Ctx) terms(fns []*ssa.Function, minTerms, minSigned int) {
 						walk(r, neg)
 					case *ssa.Store:
 						if r.Val == v {
+							// a field of a local struct variable: go on at the loads of that field
+							if fa, isFA := r.Addr.(*ssa.FieldAddr); isFA {
+								if base, isAl := fa.X.(*ssa.Alloc); isAl && base.Referrers() != nil {
+									for _, u := range *base.Referrers() {
+										if fa2, ok := u.(*ssa.FieldAddr); ok && fa2.Field == fa.Field && fa2.Referrers() != nil {
+											for _, u2 := range *fa2.Referrers() {
+												if ld, ok := u2.(*ssa.UnOp); ok && ld.Op == token.MUL {
+													walk(ld, neg)
+												}
+											}
+										}
+									}
+								}
+							}
 							if cell := an.CellOf(r.Addr); cell != nil {
 								for _, u := range *cell.Referrers() {
 									if ld, ok := u.(*ssa.UnOp); ok && ld.Op == token.MUL {
@@ -1333,7 +1382,7 @@ func (x *c16Ctx) terms(fns []*ssa.Function, minTerms, minSigned int) {
 // ---- O8
 func (x *c16Ctx) hamtCount(fns []*ssa.Function) {
 	c := x.c
-	fTot := c.P.Field(c16IO, "HAMTDirectory", "totalLinks")
+	fTot := c16IOR.hTot
 	if !c.Need(fTot != nil, "HAMTDirectory.totalLinks") {
 		return
 	}
